@@ -45,10 +45,29 @@ func (v JV) writePlain(b *bytes.Buffer) {
 			b.WriteString(strconv.FormatFloat(v.N, 'e', -1, 64))
 		} else {
 			x, _ := json.Marshal(v.N)
+			// an integral value is sometimes written in another spelling of the same number
+			// (1.0, 1e0, 10e-1), chosen from the position in the text so that a document always
+			// renders the same way
+			if v.N == math.Trunc(v.N) && v.N != 0 && !bytes.ContainsAny(x, ".eE") {
+				switch (uint64(b.Len())*2654435761 + uint64(int64(v.N))) % 24 {
+				case 0:
+					x = append(x, ".0"...)
+				case 1:
+					x = append(x, "e0"...)
+				case 2:
+					x = append(x, "0e-1"...)
+				case 3:
+					x = append(x, ".000E+0"...)
+				}
+			}
 			b.Write(x)
 		}
 	case 's':
 		x, _ := json.Marshal(v.S)
+		// a character is sometimes written as a \uXXXX escape, a space is sometimes put after the string
+		if len(v.S) > 0 && v.S[0] < 0x80 && v.S[0] >= 0x20 && v.S[0] != '"' && v.S[0] != '\\' && x[1] == v.S[0] && (uint64(b.Len())*40503+uint64(len(v.S)))%29 == 0 {
+			x = append([]byte(fmt.Sprintf("\"\\u%04x", v.S[0])), x[2:]...)
+		}
 		b.Write(x)
 	case 'a':
 		b.WriteByte('[')
@@ -66,8 +85,18 @@ func (v JV) writePlain(b *bytes.Buffer) {
 				b.WriteByte(',')
 			}
 			x, _ := json.Marshal(kv.K)
+			if len(kv.K) > 1 && kv.K[1] < 0x80 && kv.K[1] >= 0x20 && kv.K[1] != '"' && kv.K[1] != '\\' && len(x) > 3 && x[1] == kv.K[0] && x[2] == kv.K[1] && (uint64(b.Len())*40503+uint64(len(kv.K)))%31 == 0 {
+				// a member name with one character escaped ("k\u0065y")
+				x = append(append(append([]byte{}, x[:2]...), []byte(fmt.Sprintf("\\u%04x", kv.K[1]))...), x[3:]...)
+			}
 			b.Write(x)
+			if (uint64(b.Len())*97)%13 == 0 {
+				b.WriteString(" \n\t")
+			}
 			b.WriteByte(':')
+			if (uint64(b.Len())*89)%17 == 0 {
+				b.WriteByte(' ')
+			}
 			kv.V.writePlain(b)
 		}
 		b.WriteByte('}')
@@ -231,7 +260,13 @@ func flagDoc(w *WFlag) JV {
 	if w.Meta.CSA.Explicit {
 		o.O = append(o.O, KV{"clientSideAvailability", jObj(KV{"usingMobileKey", jBool(w.Meta.CSA.Mobile)}, KV{"usingEnvironmentId", jBool(w.Meta.CSA.Env)})})
 	}
-	o.O = append(o.O, KV{"clientSide", jBool(w.Meta.CSA.Env)}, KV{"salt", jStr(w.Salt)}, KV{"trackEvents", jBool(w.Meta.Track)},
+	// the deprecated clientSide normally mirrors usingEnvironmentId; when the newer object is present
+	// (and therefore decides), one document in three contradicts it
+	legacyClientSide := w.Meta.CSA.Env
+	if w.Meta.CSA.Explicit && hashStr(w.Key+w.Salt)%3 == 0 {
+		legacyClientSide = !legacyClientSide
+	}
+	o.O = append(o.O, KV{"clientSide", jBool(legacyClientSide)}, KV{"salt", jStr(w.Salt)}, KV{"trackEvents", jBool(w.Meta.Track)},
 		KV{"trackEventsFallthrough", jBool(w.TrackFT)})
 	if w.Meta.Debug != "" && w.Meta.Debug != "0" {
 		var d float64
@@ -907,6 +942,10 @@ func normalizeDump(x any) any {
 // ---------- unit-case kinds for the model correspondence ----------
 
 func (c *UnitCase) runCodec() bool {
+	if (c.Kind == "decflag" || c.Kind == "decseg") && c.Doc == nil {
+		n := jNull() // a document that is the JSON value null travels as a nil pointer
+		c.Doc = &n
+	}
 	switch c.Kind {
 	case "decflag":
 		data := c.Doc.plainJSON()
